@@ -5,5 +5,8 @@ CONSTANTS
   MaxLen = 4
   KindMode = "all"
   MaxAlias = 1
+  MaxPAlias = 0
+  MaxCollide = 0
+  NN = {1, 2, 3, 4, 5, 6, 7, 8, 9, 10, 11, 12}
 INVARIANTS Theorems Emit
 CHECK_DEADLOCK FALSE
